@@ -115,6 +115,23 @@ def check_closed(H):
     return n, out
 
 
+def check_range(H):
+    """Scores in [0, 1] or NaN (any hypergraph, repeated edges included)."""
+    import xgi
+
+    out = []
+    n = 0
+    for min_size, exclude in itertools.product((1, 2, 3), (True, False)):
+        kw = dict(min_size=min_size, exclude_min_size=exclude)
+        for fn in ("edit_simpliciality", "face_edit_simpliciality", "simplicial_fraction"):
+            n += 1
+            v = getattr(xgi, fn)(H, **kw)
+            if not _nan(v) and not (-1e-12 <= v <= 1 + 1e-12):
+                if len(out) < 4:
+                    out.append(("range", f"{fn}({kw}) = {v} outside [0, 1]"))
+    return n, out
+
+
 def _work(spec):
     with warnings.catch_warnings():
         warnings.simplefilter("ignore")
@@ -139,6 +156,22 @@ def _work(spec):
             n2, v2 = check_closed(F.build(cs))
             vi = [(m, msg, spec) for m, msg in v] + [(m, msg, cs) for m, msg in v2]
             n += n2
+            # downward-closed inputs *with* repeated edges (the "equal 1" and range clauses are not limited to hypergraphs
+            # without repeats): each edge of the closure repeated in turn, and every edge repeated
+            cedges = [m for _, m in cs["edges"]]
+            reps = [cedges + [m] for m in cedges] + [cedges + cedges]
+            for ce in reps:
+                cr = F.H(ce, nodes=spec["nodes"])
+                n2, v2 = check_closed(F.build(cr))
+                n += n2
+                vi += [(m, msg, cr) for m, msg in v2]
+            # the original edges with one of them repeated: range / NaN only
+            oedges = [m for _, m in spec["edges"]]
+            for m_ in oedges:
+                orr = F.H(oedges + [m_], nodes=spec["nodes"])
+                n2, v2 = check_range(F.build(orr))
+                n += n2
+                vi += [(m, msg, orr) for m, msg in v2]
         except RecursionError:
             raise
         except Exception as e:  # noqa: BLE001
@@ -168,14 +201,19 @@ def run(tier, ev):
     ev.cov["rule"] = ("all hypergraphs without repeated edges over 4 labels with <=3 (thorough <=4) edges and over 5 labels with "
                       "2 (thorough <=3) edges, a quarter also with string labels; x min_size {1,2,3} x exclude_min_size x "
                       "normalize; each measure compared with exhaustive enumeration over subsets of maximal edges; the closure "
-                      "of every enumerated hypergraph is used as a downward-closed input (scores 1 or NaN)")
+                      "of every enumerated hypergraph is used as a downward-closed input (scores 1 or NaN), alone and with each of its "
+                      "edges / all of its edges repeated; every enumerated hypergraph with one edge repeated for the range clause")
     res = explore.parallel_map(_work, items, env.nproc())
     viols = []
     n = 0
     for r in res:
         n += r["n"]
         for mon, msg, spec in r["viols"][:3]:
-            viols.append(Violation(PROP, mon, msg, {"check": "c15", "kind": "simpliciality", "spec": spec, "monitor": mon}, {"what": mon}))
+            direct = mon == "closed" or (mon == "range" and "outside [0, 1]" in msg and msg.split("(")[0] in
+                                         ("edit_simpliciality", "face_edit_simpliciality", "simplicial_fraction")
+                                         and not msg.startswith("["))
+            viols.append(Violation(PROP, mon, msg, {"check": "c15", "kind": "simpliciality", "spec": spec, "monitor": mon,
+                                                    "direct": direct}, {"what": mon}))
     ev.add(states=2 * len(items), transitions=n, evaluations=n, distinct_nontrivial=len(items))
     ev.sample({"spec": items[200], "settings": "min_size x exclude_min_size x normalize"})
     ev.assumptions += ["labels orderable within one hypergraph (ints or strings, not mixed)", "float tolerance 1e-9"]
@@ -184,5 +222,10 @@ def run(tier, ev):
 
 def replay(case):
     # the whole staged evaluation (fresh object, then detour / morph / grow on the same object) is repeated
+    if case.get("monitor") in ("closed", "range") and case.get("direct"):
+        with warnings.catch_warnings():
+            warnings.simplefilter("ignore")
+            _, v = (check_closed if case["monitor"] == "closed" else check_range)(F.build(case["spec"]))
+        return [f"{m}: {msg}" for m, msg in v]
     r = _work(case["spec"])
     return [f"{m}: {msg}" for m, msg, sp in r["viols"] if m == case.get("monitor")]
